@@ -445,6 +445,8 @@ Definition ex_prefix : list label :=
 Definition ex_trace : list label :=
   ex_prefix ++ [LLock 1; LUnlock 1; LWork 1 5; LLock 0; LTCreate 0 2; LUnlock 0; LEnd 0].
 
+Definition st_of (tr : list label) : state := match run (init 0) tr with Some s => s | None => init 0 end.
+
 Lemma work_nonvacuous :
   accepts 0 ex_trace = true /\
   (exists s s1 s0, run (init 0) ex_prefix = Some s /\
@@ -453,5 +455,6 @@ Lemma work_nonvacuous :
      step s1 (LLock 0) = None /\ step s0 (LLock 1) = None /\ lock s1 = Some 1 /\ wpc_of s1 1 = WTake 5 1%Z).
 Proof.
   split; [vm_compute; reflexivity|].
-  eexists; eexists; eexists. repeat split; vm_compute; reflexivity.
+  exists (st_of ex_prefix), (st_of (ex_prefix ++ [LLock 1])), (st_of (ex_prefix ++ [LLock 0])).
+  repeat match goal with |- _ /\ _ => split end; vm_compute; reflexivity.
 Qed.
